@@ -228,7 +228,7 @@ pub fn run(ctx: &Ctx) -> Evidence {
     let n = alphabet.len() as u64;
     let max_len = ctx.tier.pick(4usize, 5usize);
     ev.rule = format!(
-        "Core driver. (a) every sequence of length 1..={max_len} over {n} operations (lock / acquire-lock / release-lock x 3 clients x keys k, k/sub, and disconnect x 3 clients; a disconnected client comes back with a fresh session id); (b) seeded random sequences of length 60 with 4 clients x 3 keys; (c) socket part: 4-8 protocol-v1 sessions contending for 2 keys on the in-process multi-threaded server (perturbation hook on), sessions ending while waiting or holding: every acquire request gets exactly one terminal message and the intervals [grant received, release sent / socket closed] of different sessions on one key never overlap. After every operation: answers of lock/release and the state (pending / granted / cancelled) of EVERY acquire request ever issued are compared with the reference model (one holder, FIFO hand-over by first ask, only the holder's release or session end frees, waiters of an ended session cancelled), holder+queue of every lock read from the core equals the model, and the in-core invariant hook (lock tree clean, holder not queued, nobody queued twice, every holder/waiter registered for clean-up at session end). Non-trivial: at least one hand-over or cancellation and at least one refused lock or foreign release; distinct = distinct sequences."
+        "Core driver. (a) every sequence of length 1..={max_len} over {n} operations (lock / acquire-lock / release-lock x 3 clients x keys k, k/sub, and disconnect x 3 clients; a disconnected client comes back with a fresh session id); (b) seeded random sequences of length 60 with 5 clients x 3 keys; (c) socket part: 4-8 protocol-v1 sessions contending for 2 keys on the in-process multi-threaded server (perturbation hook on), sessions ending while waiting or holding: every acquire request gets exactly one terminal message and the intervals [grant received, release sent / socket closed] of different sessions on one key never overlap. After every operation: answers of lock/release and the state (pending / granted / cancelled) of EVERY acquire request ever issued are compared with the reference model (one holder, FIFO hand-over by first ask, only the holder's release or session end frees, waiters of an ended session cancelled), holder+queue of every lock read from the core equals the model, and the in-core invariant hook (lock tree clean, holder not queued, nobody queued twice, every holder/waiter registered for clean-up at session end). Non-trivial: at least one hand-over or cancellation and at least one refused lock or foreign release; distinct = distinct sequences."
     );
     let mut total = 0u64;
     for l in 1..=max_len {
@@ -279,7 +279,7 @@ pub fn run(ctx: &Ctx) -> Evidence {
     });
     ev.extra.insert("part_a_exhaustive_for_bound".into(), json!(ev.evaluations == total));
 
-    let sequences = ctx.tier.pick(4000usize, 100_000usize);
+    let sequences = ctx.tier.pick(20_000usize, 100_000usize);
     let keys3 = ["k", "k/sub", "other/key"];
     let base = Rng::new(ctx.seed);
     let rshards = 64usize;
@@ -290,7 +290,7 @@ pub fn run(ctx: &Ctx) -> Evidence {
         for _ in 0..sequences / rshards {
             let ops: Vec<LOp> = (0..60)
                 .map(|_| {
-                    let c = rng.below(4);
+                    let c = rng.below(5);
                     let k = rng.below(3);
                     match rng.below(20) {
                         0..=4 => LOp::Lock(c, k),
@@ -324,7 +324,7 @@ pub fn run(ctx: &Ctx) -> Evidence {
         record(ev, &obs);
     });
     // ---- (c) socket part: mutual exclusion at the client boundary -----------------------------------
-    let socket_runs = ctx.tier.pick(60usize, 2000usize);
+    let socket_runs = ctx.tier.pick(150usize, 2000usize);
     let dir = ctx.scratch("c06");
     super::c06_socket::run_socket_part(&mut ev, ctx.seed, socket_runs, &dir);
     ev.assumptions = vec![
